@@ -73,6 +73,7 @@ type c08Env struct {
 	nlisten  map[string]int  // listeners per pattern key (m, c, u, sub.m)
 	applyRet interface{}     // what the apply handler returned last
 	nfail    int64           // failing apply calls so far (selects the error returned)
+	nest     bool            // the first listener of a pattern answers every event with a "pong" event on the same resource
 }
 
 func (e *c08Env) add(kind, detail string) {
@@ -188,7 +189,13 @@ func (e *c08Env) configure(s *res.Service, r *rand.Rand) {
 			default:
 				d["payload"] = ev.Payload
 			}
-			e.add("listener", fmt.Sprintf("%s#%d:%s", key, n, jsonStr(d)))
+			e.add("listener", fmt.Sprintf("%s#%d@%s:%s", key, n, ev.Name, jsonStr(d)))
+			if e.nest && n == 0 && ev.Name != "pong" {
+				// an event sent from inside a listener: it is complete (published, heard by every
+				// listener) before the outer event reaches the next listener - with the outer
+				// event's own name and values
+				ev.Resource.Event("pong", map[string]interface{}{"q": 2})
+			}
 		}
 	}
 	addL := func(mx *res.Mux, key, pattern string) {
@@ -313,10 +320,17 @@ func (e *c08Env) step(rs res.Resource, rq *res.Request, st c08Step) {
 // when the step panics (ends a handler script).
 func (e *c08Env) expected(st c08Step, typ, key, rname string) (exp []string, stop bool) {
 	nl := e.nlisten[key]
-	pub := func(ev string) { exp = append(exp, "publish:event."+rname+"."+ev) }
+	var evName string
+	pub := func(ev string) { evName = ev; exp = append(exp, "publish:event."+rname+"."+ev) }
 	listeners := func() {
 		for i := 0; i < nl; i++ {
-			exp = append(exp, fmt.Sprintf("listener:%s#%d", key, i))
+			exp = append(exp, fmt.Sprintf("listener:%s#%d@%s", key, i, evName))
+			if i == 0 && e.nest {
+				exp = append(exp, "publish:event."+rname+".pong")
+				for j := 0; j < nl; j++ {
+					exp = append(exp, fmt.Sprintf("listener:%s#%d@pong", key, j))
+				}
+			}
 		}
 	}
 	applies := func(ev string) (cont bool) {
@@ -455,6 +469,7 @@ func c08Run(c *core.Ctx, b core.Batch) {
 			}
 			c.SetAdd("resource_shapes", typ)
 			inHandler := r.Intn(2) == 0
+			env.nest = r.Intn(4) == 0
 			c08One(c, env, steps, rtyp, key, rname, inHandler, cfgDesc)
 			if done == 3 {
 				c.Sample(map[string]interface{}{"config": cfgDesc, "script": steps, "resource": rname, "in_handler": inHandler})
@@ -561,7 +576,7 @@ func c08One(c *core.Ctx, env *c08Env, steps []c08Step, typ, key, rname string, i
 		got = got[:len(got)-1]
 		delete(gs, 0)
 	}
-	desc := map[string]interface{}{"config": cfgDesc, "script": steps, "resource": rname, "in_handler": inHandler, "expected": exp, "observed": got}
+	desc := map[string]interface{}{"config": cfgDesc, "script": steps, "resource": rname, "in_handler": inHandler, "first_listener_sends_pong_event": env.nest, "expected": exp, "observed": got}
 	if strings.Join(got, "|") != strings.Join(exp, "|") {
 		c.Violation("C08/effect-order:"+c08Diff(exp, got), fmt.Sprintf("script %v on %s: observed effects %v, expected %v", steps, rname, got, exp), desc)
 		return
@@ -618,6 +633,8 @@ func c08One(c *core.Ctx, env *c08Env, steps []c08Step, typ, key, rname string, i
 			if d["payload"] != nil {
 				want["payload"] = map[string]interface{}{"p": 1.0}
 			}
+		case "pong":
+			want["payload"] = map[string]interface{}{"q": 2.0}
 		}
 		for k, w := range want {
 			if jsonStr(d[k]) != jsonStr(w) {
@@ -628,7 +645,7 @@ func c08One(c *core.Ctx, env *c08Env, steps []c08Step, typ, key, rname string, i
 		}
 	}
 	if nontrivial {
-		c.Distinct(fmt.Sprintf("%v|%v|%v|%s|%v", env.present, env.nlisten, steps, typ, inHandler))
+		c.Distinct(fmt.Sprintf("%v|%v|%v|%s|%v|%v", env.present, env.nlisten, steps, typ, inHandler, env.nest))
 	}
 }
 
@@ -662,7 +679,11 @@ func c08Diff(exp, got []string) string {
 				rest = "event." + rest[k+1:]
 			}
 			if k := strings.IndexByte(rest, '#'); k >= 0 {
-				rest = rest[:k]
+				name := ""
+				if a := strings.IndexByte(rest[k:], '@'); a >= 0 {
+					name = rest[k+a:]
+				}
+				rest = rest[:k] + name
 			}
 			return s[:j] + ":" + rest
 		}
